@@ -19,6 +19,20 @@ def waiter_reentrant(cond, obs, timeout):
     cond.release()
 
 
+def waiter_interruptible(cond, obs, timeout):
+    # a waiter whose sleep may be interrupted (Ctrl-C in an interactive session): it catches the exception and
+    # carries on; the condition must stay usable for everybody else
+    cond.acquire()
+    try:
+        r = cond.wait(timeout)
+    except KeyboardInterrupt:
+        obs.wait_interrupted()
+        cond.release()
+        return
+    obs.wait_returned(r)
+    cond.release()
+
+
 def notifier(cond, obs, use_all):
     cond.acquire()
     if use_all:
